@@ -466,6 +466,162 @@ def _required_distribution(rq, rs, rp, md):
     return sorted(ev)
 
 
+_ROLES3 = ('process_request', 'process_resource', 'process_response')
+
+
+def _role_binding_table(run, f, comp_loop, asgi_param):
+    """Abstract evaluation of how prepare_middleware binds the three method
+    locals of a component, on all 64 presence patterns of the six attribute
+    names (<role>, <role>_async) x asgi in {True, False}.  A value is None or
+    the NAME of the attribute the bound method comes from.  Returns
+    {(asgi, frozenset(present names)): {local: value}}; raises _Unevaluable."""
+    p = run.project
+    comp = comp_loop.target.id if isinstance(comp_loop.target, ast.Name) else None
+    if comp is None:
+        raise _Unevaluable('component loop variable')
+    names6 = [r + sfx for r in _ROLES3 for sfx in ('', '_async')]
+
+    class _Gen:
+        def __init__(self, items):
+            self.items = items
+
+    def ev(e, env):
+        if isinstance(e, ast.Constant):
+            return e.value
+        if isinstance(e, ast.Name):
+            if e.id in env:
+                return env[e.id]
+            v = p.fold(f.module, e, None, None)
+            if isinstance(v, (tuple, list, str)):
+                return tuple(v) if isinstance(v, list) else v
+            raise _Unevaluable('name %s' % e.id)
+        if isinstance(e, ast.BinOp) and isinstance(e.op, ast.Add):
+            l, r = ev(e.left, env), ev(e.right, env)
+            if isinstance(l, str) and isinstance(r, str):
+                return l + r
+            raise _Unevaluable('concatenation %s' % short(e))
+        if isinstance(e, ast.JoinedStr):
+            out = ''
+            for v in e.values:
+                x = ev(v.value, env) if isinstance(v, ast.FormattedValue) else v.value
+                if not isinstance(x, str):
+                    raise _Unevaluable('f-string %s' % short(e))
+                out += x
+            return out
+        if isinstance(e, ast.BoolOp):
+            val = None
+            for v in e.values:
+                val = ev(v, env)
+                if isinstance(e.op, ast.Or) and val:
+                    return val
+                if isinstance(e.op, ast.And) and not val:
+                    return val
+            return val
+        if isinstance(e, ast.UnaryOp) and isinstance(e.op, ast.Not):
+            return not ev(e.operand, env)
+        if isinstance(e, ast.IfExp):
+            return ev(e.body if ev(e.test, env) else e.orelse, env)
+        if isinstance(e, ast.Compare) and len(e.ops) == 1 and isinstance(e.ops[0], (ast.Is, ast.IsNot)) \
+                and isinstance(e.comparators[0], ast.Constant) and e.comparators[0].value is None:
+            v = ev(e.left, env)
+            return (v is None) if isinstance(e.ops[0], ast.Is) else (v is not None)
+        if isinstance(e, (ast.Tuple, ast.List)):
+            return tuple(ev(x, env) for x in e.elts)
+        if isinstance(e, (ast.GeneratorExp, ast.ListComp)) and len(e.generators) == 1 and isinstance(e.generators[0].target, ast.Name):
+            g = e.generators[0]
+            seq = ev(g.iter, env)
+            if not isinstance(seq, tuple):
+                raise _Unevaluable('comprehension source %s' % short(g.iter))
+            out = []
+            for item in seq:
+                env2 = dict(env)
+                env2[g.target.id] = item
+                if all(ev(c, env2) for c in g.ifs):
+                    out.append(ev(e.elt, env2))
+            return tuple(out)
+        if isinstance(e, ast.Call):
+            fn = e.func
+            fname = fn.attr if isinstance(fn, ast.Attribute) else fn.id if isinstance(fn, ast.Name) else None
+            if fname in ('any', 'all') and len(e.args) == 1:
+                seq = ev(e.args[0], env)
+                return (any if fname == 'any' else all)(bool(x) for x in seq)
+            if fname in ('get_bound_method', 'getattr') and len(e.args) >= 2 and isinstance(e.args[0], ast.Name) and e.args[0].id == comp:
+                nm = ev(e.args[1], env)
+                if not isinstance(nm, str):
+                    raise _Unevaluable('attribute name %s' % short(e.args[1]))
+                return nm if nm in env['__present__'] else None
+            if fname == 'hasattr' and len(e.args) == 2 and isinstance(e.args[0], ast.Name) and e.args[0].id == comp:
+                nm = ev(e.args[1], env)
+                if not isinstance(nm, str):
+                    raise _Unevaluable('attribute name %s' % short(e.args[1]))
+                return nm in env['__present__']
+            if fname in ('tuple', 'list') and len(e.args) == 1:
+                return tuple(ev(e.args[0], env))
+            if len(e.args) == 1 and not e.keywords:
+                # a wrapper around one method value (adapter to a coroutine, cast, ...): passes None through
+                v = ev(e.args[0], env)
+                if v is None or isinstance(v, str):
+                    return v
+            raise _Unevaluable('call %s' % short(e))
+        raise _Unevaluable('expression %s' % short(e))
+
+    def assign(t, v, env):
+        if isinstance(t, ast.Name):
+            env[t.id] = v
+        elif isinstance(t, (ast.Tuple, ast.List)):
+            if not isinstance(v, tuple) or len(v) != len(t.elts):
+                raise _Unevaluable('unpacking %s' % short(t))
+            for tt, vv in zip(t.elts, v):
+                assign(tt, vv, env)
+        else:
+            raise _Unevaluable('target %s' % short(t))
+
+    def run_stmts(stmts, env):
+        for st in stmts:
+            if isinstance(st, ast.Assign):
+                v = ev(st.value, env)
+                for t in st.targets:
+                    assign(t, v, env)
+            elif isinstance(st, ast.AnnAssign):
+                if st.value is not None:
+                    assign(st.target, ev(st.value, env), env)
+            elif isinstance(st, ast.If):
+                try:
+                    t = ev(st.test, env)
+                except _Unevaluable:
+                    # validation blocks (coroutine-ness ...) that bind none of the locals are skipped
+                    if any(isinstance(x, ast.Name) and isinstance(x.ctx, ast.Store) for x in walk_self(st)):
+                        raise
+                    continue
+                run_stmts(st.body if t else st.orelse, env)
+            elif isinstance(st, (ast.For, ast.AsyncFor, ast.While)):
+                # validation loops (coroutine-ness of the bound methods); a method local bound in a loop
+                # would not be identified below and ends as an unknown idiom
+                continue
+            elif isinstance(st, (ast.Expr, ast.Pass, ast.Raise, ast.Continue)):
+                continue
+            else:
+                raise _Unevaluable('statement %s' % type(st).__name__)
+
+    # the binding statements: the leading statements of the loop body up to the first one that mentions a stack insertion
+    head = []
+    for st in comp_loop.body:
+        if any(isinstance(c, ast.Call) and isinstance(c.func, ast.Attribute) and c.func.attr in ('append', 'insert') for c in walk_self(st)):
+            break
+        head.append(st)
+    import itertools
+    table = {}
+    for asgi in (True, False):
+        for k in range(len(names6) + 1):
+            for present in itertools.combinations(names6, k):
+                env = {'__present__': frozenset(present), asgi_param: asgi}
+                # the "no method at all" early exit is not a binding: evaluate bindings only
+                run_stmts([st for st in head if not (isinstance(st, ast.If) and not any(
+                    isinstance(x, ast.Name) and isinstance(x.ctx, ast.Store) for x in walk_self(st)))], env)
+                table[(asgi, frozenset(present))] = {k_: v for k_, v in env.items() if not k_.startswith('__') and k_ != asgi_param}
+    return table
+
+
 def r3_stacks(run):
     p = run.project
     f = p.func('falcon.app_helpers.prepare_middleware')
@@ -518,9 +674,55 @@ def r3_stacks(run):
                 roles_.update(l[:-len('_async')] if l.endswith('_async') else l for l in lits)
         return roles_
 
+    # how the three method locals of a component are bound: evaluated on all presence patterns of
+    # <role> / <role>_async (each role falls back from the *_async spelling to the plain one on its own)
+    comp_loops = [n for n in walk_self(f.node) if isinstance(n, ast.For) and isinstance(n.target, ast.Name)
+                  and any(isinstance(c, ast.Call) and isinstance(c.func, ast.Attribute) and c.func.attr in ('append', 'insert') for c in walk_self(n))]
+    comp_loops = [lp for lp in comp_loops if not any(lp is not o and any(x is lp for x in walk_self(o)) for o in comp_loops)]
+    local_role = {}
+    asgi_param = params[2] if len(params) > 2 else None
+    if len(comp_loops) == 1 and asgi_param:
+        try:
+            btable = _role_binding_table(run, f, comp_loops[0], asgi_param)
+        except _Unevaluable as ex:
+            btable = None
+            run.extra['c03_r3_binding_table'] = 'not evaluable: %s' % ex
+        if btable is not None:
+            # identify the local of each role: the one that resolves to <role> when only <role> is present (WSGI)
+            for r in _ROLES3:
+                env = btable[(False, frozenset([r]))]
+                hits = [k for k, v in env.items() if v == r]
+                if len(hits) == 1:
+                    local_role[hits[0]] = r
+            if len(local_role) != 3:
+                raise UnknownIdiom('prepare_middleware: the three method locals were not identified (%s)' % sorted(local_role))
+            bad = []
+            for (asgi, present), env in sorted(btable.items(), key=lambda kv: (kv[0][0], sorted(kv[0][1]))):
+                for loc, r in local_role.items():
+                    if asgi:
+                        want_ = r + '_async' if r + '_async' in present else (r if r in present else None)
+                    else:
+                        want_ = r if r in present else None
+                    if env.get(loc) != want_:
+                        bad.append((asgi, sorted(present), loc, env.get(loc), want_))
+            if bad:
+                asgi, present, loc, got, want_ = bad[0]
+                run.fail('prepare_middleware (%s): each middleware method is looked up on its own -- %s, falling back per method' % (
+                    'ASGI' if asgi else 'WSGI', '<role>_async first, then <role>' if asgi else 'the plain <role> name'), f,
+                    'binding[%s; asgi=%d; component has %s]' % (loc, int(asgi), ','.join(present) or 'nothing'), where=f.loc(comp_loops[0]),
+                    witness=['%s is bound to %s, expected %s' % (loc, got, want_), '%d of 384 cells differ' % len(bad)],
+                    runtime_witness='an ASGI component with process_request_async and a plain coroutine process_response: the response method is never called')
+            else:
+                run.ok('prepare_middleware: 128 presence patterns x 3 roles bind each method local by per-role fallback', f.loc(comp_loops[0]), 'binding table')
+
+    def role_of1(name):
+        if name in local_role:
+            return {local_role[name]}
+        return role_of0(name)
+
     table = None
     try:
-        table, comp_loop = _distribution_table(run, f, roles, role_of0, mode)
+        table, comp_loop = _distribution_table(run, f, roles, role_of1, mode)
     except _Unevaluable as ex:
         if not mode_edges[True] or not mode_edges[False]:
             raise UnknownIdiom('prepare_middleware: distribution of component methods cannot be evaluated (%s) and there is no branch on the mode parameter' % ex)
@@ -781,6 +983,44 @@ def r6_wiring(run):
         raise AnchorError('add_middleware: no writer of _unprepared_middleware')
     for kind, n in writers:
         run.check(kind == 'tail', 'add_middleware appends new components after the existing ones (registration order is stack order)', f, n)
+    # (a') what is appended is the caller's list, whole: every component given is registered ("invoked, in order, as if
+    # appended to the original list"); rebindings of the parameter other than making it a list (list(x), [x]) --
+    # filtering, de-duplication by equality, slicing, sorting -- drop or reorder stack positions
+    mparam = f.params()[1] if len(f.params()) > 1 else None
+    if mparam is None:
+        raise AnchorError('add_middleware: middleware parameter not found')
+    for n in walk_self(f.node):
+        tg = n.targets if isinstance(n, ast.Assign) else [n.target] if isinstance(n, (ast.AnnAssign, ast.AugAssign)) and getattr(n, 'value', None) is not None else []
+        if not any(isinstance(t, ast.Name) and t.id == mparam for t in tg):
+            continue
+        v = n.value
+        ok = (isinstance(v, ast.Call) and isinstance(v.func, ast.Name) and v.func.id in ('list', 'tuple') and len(v.args) == 1
+              and isinstance(v.args[0], ast.Name) and v.args[0].id == mparam and not isinstance(n, ast.AugAssign)) \
+            or (isinstance(v, (ast.List, ast.Tuple)) and len(v.elts) == 1 and isinstance(v.elts[0], ast.Name) and v.elts[0].id == mparam
+                and not isinstance(n, ast.AugAssign)) \
+            or (isinstance(v, (ast.List, ast.Tuple)) and isinstance(v.elts and v.elts[0], ast.Starred) and len(v.elts) == 1
+                and isinstance(v.elts[0].value, ast.Name) and v.elts[0].value.id == mparam)
+        if ok:
+            run.ok('add_middleware only normalises its argument to a list', f.loc(n), n)
+        elif isinstance(v, (ast.ListComp, ast.GeneratorExp, ast.SetComp)) or (isinstance(v, ast.Call) and isinstance(v.func, ast.Name)
+                                                                             and v.func.id in ('filter', 'set', 'sorted', 'reversed', 'dict', 'frozenset')) \
+                or isinstance(v, ast.Subscript) or (isinstance(v, ast.Call) and isinstance(v.func, ast.Attribute) and v.func.attr in ('fromkeys',)):
+            run.fail('add_middleware registers every component it is given, in the given order (the argument is not filtered, de-duplicated, '
+                     'sliced or reordered before it is appended)', f, n,
+                     runtime_witness='two equal (==) components, or the same object placed at two stack positions in two calls: the second '
+                                     'position gets no request/resource/response calls')
+        else:
+            raise UnknownIdiom('add_middleware: the middleware argument is rebound to %s' % short(v))
+    for kind, n in writers:
+        val = n.value if isinstance(n, (ast.AugAssign, ast.Assign)) else (n.args[0] if n.args else None)
+        if isinstance(n, ast.Assign) and isinstance(val, ast.BinOp):
+            val = val.right
+        if kind == 'tail' and not (isinstance(val, ast.Name) and val.id == mparam):
+            if isinstance(val, (ast.ListComp, ast.GeneratorExp)) or (isinstance(val, ast.Call) and isinstance(val.func, ast.Name) and val.func.id in ('filter', 'set', 'sorted')):
+                run.fail('add_middleware registers every component it is given, in the given order', f, n)
+            elif val is not None and not (isinstance(val, ast.Call) and isinstance(val.func, ast.Name) and val.func.id in ('list', 'tuple')
+                                          and len(val.args) == 1 and isinstance(val.args[0], ast.Name) and val.args[0].id == mparam):
+                raise UnknownIdiom('add_middleware: appends %s, not its argument' % short(val))
     # (b) the prepared stacks are rebuilt from the full list with the configured mode on every normal path
     assigns = [n for n in walk_self(f.node) if isinstance(n, ast.Assign) and any(is_self_attr(t, '_middleware') for t in n.targets)]
     a = single(assigns, 'assignment to self._middleware', f.qual)
@@ -863,6 +1103,32 @@ def r7_class_hooks(run):
                 run.ok('%s enumerates the members of the decorated class across its MRO' % outer.name, g.loc(lp), lp.iter)
             else:
                 raise UnknownIdiom('%s: member enumeration %s' % (g.qual, short(lp.iter)))
+            # a filter inside the loop that keeps only names of the class's OWN namespace has the same effect
+            own_names = set()
+            for a in walk_self(g.node):
+                if isinstance(a, ast.Assign) and len(a.targets) == 1 and isinstance(a.targets[0], ast.Name):
+                    vn = set()
+                    for x in ast.walk(a.value):
+                        if isinstance(x, ast.Call) and isinstance(x.func, ast.Name):
+                            vn.add(x.func.id)
+                        elif isinstance(x, ast.Attribute):
+                            vn.add(x.attr)
+                    if vn & set(_OWN_NAMESPACE_ONLY) and any(isinstance(x, ast.Name) and x.id == param for x in ast.walk(a.value)):
+                        own_names.add(a.targets[0].id)
+            for t in walk_self(lp):
+                if isinstance(t, ast.Compare) and any(isinstance(o, (ast.In, ast.NotIn)) for o in t.ops):
+                    for c in t.comparators:
+                        cn = set()
+                        for x in ast.walk(c):
+                            if isinstance(x, ast.Call) and isinstance(x.func, ast.Name):
+                                cn.add(x.func.id)
+                            elif isinstance(x, ast.Attribute):
+                                cn.add(x.attr)
+                            elif isinstance(x, ast.Name) and x.id in own_names:
+                                cn.add('vars')
+                        if cn & set(_OWN_NAMESPACE_ONLY):
+                            run.fail('%s filters the members by the decorated class\'s own namespace: inherited responders are not wrapped, the hook never runs for them' % outer.name,
+                                     g, t, runtime_witness='class Base: on_get...; @falcon.before(reject) class Child(Base): pass -> GET reaches on_get without the hook')
             # the wrapped responder is installed back on the class under the same name
             sets = [c for c in walk_self(lp) if isinstance(c, ast.Call) and isinstance(c.func, ast.Name) and c.func.id == 'setattr' and len(c.args) == 3]
             tgt = lp.target.elts[0].id if isinstance(lp.target, ast.Tuple) and isinstance(lp.target.elts[0], ast.Name) else None
